@@ -2,6 +2,7 @@ package rules
 
 import (
 	"fmt"
+	"go/token"
 	"go/types"
 	"sort"
 	"strings"
@@ -29,6 +30,13 @@ type lgInfo struct {
 }
 
 func isByteSlice(t types.Type) bool {
+	if pt, ok := t.Underlying().(*types.Pointer); ok {
+		// pointer receiver of a named byte-slice type (e.g. *tbls.SigShare)
+		if _, named := pt.Elem().(*types.Named); !named {
+			return false
+		}
+		t = pt.Elem()
+	}
 	s, ok := t.Underlying().(*types.Slice)
 	if !ok {
 		return false
@@ -47,6 +55,12 @@ func rootParam(v ssa.Value) (*ssa.Parameter, bool) {
 			v = x.X
 		case *ssa.ChangeType:
 			v = x.X
+		case *ssa.UnOp:
+			// *s of a pointer receiver of byte-slice type
+			if p, ok := x.X.(*ssa.Parameter); ok && x.Op == token.MUL && isByteSlice(p.Type()) {
+				return p, true
+			}
+			return nil, false
 		case *ssa.MakeSlice:
 			// same-length copy: make([]byte, len(p)) is as long as the parameter
 			if call, ok := x.Len.(*ssa.Call); ok {
@@ -173,10 +187,14 @@ func LenGuard(c *Ctx, cfg string, pkgs []string) {
 		what string
 	}
 	var viols []siteViol
+	var elemViols []siteViol
+	elemSeen := map[string]bool{}
 	changed := true
 	for changed {
 		changed = false
 		viols = viols[:0]
+		elemViols = elemViols[:0]
+		elemSeen = map[string]bool{}
 		for _, fn := range fns {
 			var a *apo.FnAnalysis
 			for _, b := range fn.Blocks {
@@ -201,6 +219,20 @@ func LenGuard(c *Ctx, cfg string, pkgs []string) {
 						arg := args[k]
 						prm, isParam := rootParam(arg)
 						if !isParam {
+							// an element of a [][]byte parameter (one untrusted message among several) handed to a
+							// callee that indexes it: must be validated at this call site
+							if elem, owner, ok := elementRoot(arg, 0); ok {
+								if a == nil {
+									a = apo.Analyze(fn, apo.AcceptSpec{})
+								}
+								if !elemGuarded(a, b, elem) {
+									key := fmt.Sprintf("%s|%d", shortFn(fn), in.Pos())
+									if !elemSeen[key] {
+										elemSeen[key] = true
+										elemViols = append(elemViols, siteViol{fn, in, fmt.Sprintf("element of parameter %s passed to %s", owner.Name(), shortFn(callee))})
+									}
+								}
+							}
 							continue // array slice, make, encoder result, field: length by construction (not a raw input of this function)
 						}
 						if a == nil {
@@ -230,6 +262,9 @@ func LenGuard(c *Ctx, cfg string, pkgs []string) {
 	for _, fn := range fns {
 		info := infos[fn]
 		exported := fn.Object() != nil && fn.Object().Exported() && recvExported(fn)
+		if _, ok := lenGuardCallerDuty[shortFn(fn)]; ok {
+			exported = false
+		}
 		for i, prm := range fn.Params {
 			if !isByteSlice(prm.Type()) {
 				continue
@@ -247,9 +282,119 @@ func LenGuard(c *Ctx, cfg string, pkgs []string) {
 			c.R.Ok("APO-LENGUARD", shortFn(fn), site, p.FnPos(fn), "all accesses dominated by a length fact / range / by-construction", true)
 		}
 	}
+	for _, v := range elemViols {
+		c.R.Bad("APO-LENGUARD", shortFn(v.fn), v.what, p.Pos(v.call.Pos()), "the callee indexes/slices the bytes it is given, and at this call no length fact or successful validating call on that element dominates")
+	}
 	if n == 0 {
 		c.R.Fatalf("APO-LENGUARD matched no byte-slice parameter")
 	}
+}
+
+// elementRoot: v is (a conversion / re-slice / local copy of) an element of a
+// parameter whose elements are byte slices; returns the element load and the parameter.
+func elementRoot(v ssa.Value, depth int) (ssa.Value, *ssa.Parameter, bool) {
+	if depth > 8 || v == nil {
+		return nil, nil, false
+	}
+	switch x := v.(type) {
+	case *ssa.ChangeType:
+		return elementRoot(x.X, depth+1)
+	case *ssa.Slice:
+		return elementRoot(x.X, depth+1)
+	case *ssa.Convert:
+		return elementRoot(x.X, depth+1)
+	case *ssa.Alloc:
+		var st *ssa.Store
+		for _, r := range *x.Referrers() {
+			if s, ok := r.(*ssa.Store); ok && s.Addr == ssa.Value(x) {
+				if st != nil {
+					return nil, nil, false
+				}
+				st = s
+			}
+		}
+		if st == nil {
+			return nil, nil, false
+		}
+		return elementRoot(st.Val, depth+1)
+	case *ssa.UnOp:
+		if x.Op != token.MUL {
+			return nil, nil, false
+		}
+		if ia, ok := x.X.(*ssa.IndexAddr); ok {
+			if p, ok := ia.X.(*ssa.Parameter); ok {
+				if sl, ok := p.Type().Underlying().(*types.Slice); ok && isByteSlice(sl.Elem()) {
+					return x, p, true
+				}
+			}
+			return nil, nil, false
+		}
+		return elementRoot(x.X, depth+1)
+	}
+	return nil, nil, false
+}
+
+// elemGuarded: at block b some fact is computed from the length of the
+// element, or is the success of a call that was handed the element.
+func elemGuarded(a *apo.FnAnalysis, b *ssa.BasicBlock, elem ssa.Value) bool {
+	derived := func(v ssa.Value) bool {
+		e, _, ok := elementRoot(v, 0)
+		return ok && e == elem
+	}
+	var lenOf func(v ssa.Value, seen map[ssa.Value]bool, d int) bool
+	lenOf = func(v ssa.Value, seen map[ssa.Value]bool, d int) bool {
+		if v == nil || seen[v] || d > 10 {
+			return false
+		}
+		seen[v] = true
+		if call, ok := v.(*ssa.Call); ok {
+			if bi, ok := call.Call.Value.(*ssa.Builtin); ok && bi.Name() == "len" && derived(call.Call.Args[0]) {
+				return true
+			}
+		}
+		if in, ok := v.(ssa.Instruction); ok {
+			var ops []*ssa.Value
+			for _, op := range in.Operands(ops) {
+				if *op != nil && lenOf(*op, seen, d+1) {
+					return true
+				}
+			}
+		}
+		return false
+	}
+	for _, f := range a.FactTriplesAt(b) {
+		if lenOf(f.V, map[ssa.Value]bool{}, 0) {
+			return true
+		}
+		// success of a validating call that received the element
+		v := f.V
+		if ex, ok := v.(*ssa.Extract); ok {
+			v = ex.Tuple
+		}
+		call, ok := v.(*ssa.Call)
+		if !ok {
+			continue
+		}
+		success := f.IsNil && f.Val || !f.IsNil && f.Val
+		if !success {
+			continue
+		}
+		var args []ssa.Value
+		if call.Call.IsInvoke() {
+			args = append(args, call.Call.Value)
+		}
+		args = append(args, call.Call.Args...)
+		for _, arg := range args {
+			if derived(arg) {
+				return true
+			}
+			// the same local holding the element (e.g. sh.Index() and sh.Value() on one variable)
+			if ld, ok := arg.(*ssa.UnOp); ok && derived(ld.X) {
+				return true
+			}
+		}
+	}
+	return false
 }
 
 // mentionsLen: the value is computed from len(p') where p' is the parameter,
@@ -314,6 +459,13 @@ func recvExported(fn *ssa.Function) bool {
 		return nt.Obj().Exported() || kyberAPIMethod[fn.Name()]
 	}
 	return true
+}
+
+// lenGuardCallerDuty: exported accessors without an error result whose
+// precondition is checked by every in-module caller (the obligation is
+// discharged at the call sites, like for unexported functions).
+var lenGuardCallerDuty = map[string]string{
+	"(*sign/tbls.SigShare).Value": "accessor with no error result; Index()/IndexOf validate the share first at every call site",
 }
 
 var kyberAPIMethod = map[string]bool{"UnmarshalBinary": true, "SetBytes": true, "Embed": true, "Hash": true, "IsCanonical": true,
